@@ -57,6 +57,7 @@ type X02KV struct {
 	parked map[string]map[uint64]int
 	gate   bool
 	held   []*X02Held
+	sig    chan struct{} // signalled whenever a request is held at the gate
 	closed bool
 
 	T   *Trace
@@ -69,7 +70,7 @@ type X02KV struct {
 
 func NewX02KV(man, nr string, stride uint64, tr *Trace) *X02KV {
 	k := &X02KV{Stride: stride, gidx: stride, keys: map[string]*x02Ent{}, tombs: map[string]uint64{},
-		parked: map[string]map[uint64]int{}, T: tr, Man: man, Nr: nr,
+		parked: map[string]map[uint64]int{}, T: tr, Man: man, Nr: nr, sig: make(chan struct{}, 1),
 		AbsVal: func(s string) string { return s }, AbsPath: func(s string) string { return s }}
 	if k.Stride == 0 {
 		k.Stride, k.gidx = 1, 1
@@ -249,6 +250,21 @@ func (k *X02KV) WaitHeld(match func(h *X02Held) bool) *X02Held {
 	}
 	return nil
 }
+
+// TryHeld returns a held PUT accepted by match, or nil; HeldSignal is signalled whenever a PUT
+// arrives at the gate (so that a driver can wait for "held or answered" without polling).
+func (k *X02KV) TryHeld(match func(h *X02Held) bool) *X02Held {
+	k.mu.Lock()
+	defer k.mu.Unlock()
+	for _, h := range k.held {
+		if match(h) {
+			return h
+		}
+	}
+	return nil
+}
+
+func (k *X02KV) HeldSignal() <-chan struct{} { return k.sig }
 
 func (k *X02KV) HeldCount() int {
 	k.mu.Lock()
@@ -441,6 +457,10 @@ func (k *X02KV) servePut(w http.ResponseWriter, key, val string, cas uint64, has
 		h := &X02Held{Key: key, Cas: cas, Val: val, rel: make(chan struct{})}
 		k.held = append(k.held, h)
 		k.cond.Broadcast()
+		select {
+		case k.sig <- struct{}{}:
+		default:
+		}
 		k.mu.Unlock()
 		<-h.rel
 		k.mu.Lock()
